@@ -66,18 +66,31 @@ struct SrcFile {
     fix: bool,
 }
 
-fn source_files(seed: u64, case: &str, with_empty: bool, with_sig: bool) -> Vec<SrcFile> {
+fn source_files(seed: u64, case: &str, with_empty: bool, with_sig: bool, edge: bool) -> Vec<SrcFile> {
     let mut rng = Rng::derive(seed, &format!("{case}:src"));
     let mut v = vec![
         SrcFile { name: "data\\plain.txt", data: gen_content("text", rng.range(200, 600) as usize, &mut rng), comp: cflags::ZLIB, enc: false, fix: false },
         SrcFile { name: "data\\raw.bin", data: gen_content("random", rng.range(100, 400) as usize, &mut rng), comp: 0, enc: false, fix: false },
-        SrcFile { name: "data\\secret.dat", data: gen_content("text", rng.range(200, 600) as usize, &mut rng), comp: cflags::ZLIB, enc: true, fix: false },
-        SrcFile { name: "data\\fixkey.dat", data: gen_content("mixed", rng.range(200, 600) as usize, &mut rng), comp: cflags::ZLIB, enc: true, fix: true },
+        // sizes chosen so that the layout class (single unit / multi-sector) of each file class changes with the
+        // sector sizes in use: 512 B, 4 KiB, 16 KiB in source and target
+        SrcFile { name: "data\\secret.dat", data: gen_content("mixed", rng.range(1100, 1500) as usize, &mut rng), comp: cflags::ZLIB, enc: true, fix: false },
+        SrcFile { name: "data\\fixkey.dat", data: gen_content("mixed", rng.range(2900, 3100) as usize, &mut rng), comp: cflags::ZLIB, enc: true, fix: true },
+        SrcFile { name: "data\\fixraw.dat", data: gen_content("random", rng.range(5000, 6000) as usize, &mut rng), comp: 0, enc: true, fix: true },
         // larger than a sector (16 KiB sectors in the source): several compressed sectors
         SrcFile { name: "world\\big.adt", data: gen_content("text", rng.range(36_000, 44_000) as usize, &mut rng), comp: cflags::ZLIB, enc: false, fix: false },
     ];
     if with_empty {
         v.push(SrcFile { name: "data\\empty.bin", data: vec![], comp: cflags::ZLIB, enc: false, fix: false });
+    }
+    if edge {
+        let base = rng.bytes(300);
+        for k in 44..77usize {
+            let mut d = base.clone();
+            d.extend(std::iter::repeat(0u8).take(k));
+            d[0] = k as u8; // all different
+            let name: &'static str = Box::leak(format!("edge\\z{k}.bin").into_boxed_str());
+            v.push(SrcFile { name, data: d, comp: 0, enc: false, fix: false });
+        }
     }
     if with_sig {
         // a weak digital signature is a listed 72-byte file named (signature): 8 zero bytes + 64 signature bytes
@@ -106,12 +119,17 @@ fn main() {
         let spath = scratch.file(&format!("{case}-src.mpq"));
         let tpath = scratch.file(&format!("{case}-dst.mpq"));
         let with_sig = src.get("sig").map(|x| x.as_bool() == Some(true)).unwrap_or(false);
-        let files = source_files(seed, &case, gb(src, "empty"), with_sig);
+        let edge = src.get("edge").map(|x| x.as_bool() == Some(true)).unwrap_or(false);
+        let sbs = src.get("sbs").and_then(|x| x.as_i64()).unwrap_or(-1);
+        let files = source_files(seed, &case, gb(src, "empty"), with_sig, edge);
         // ---- source archive
         let mut b = ArchiveBuilder::new()
             .version(version(gi(src, "ver")))
             .listfile_option(ListfileOption::Generate)
             .attributes_option(if gb(src, "at") { AttributesOption::GenerateCrc32 } else { AttributesOption::None });
+        if sbs >= 0 {
+            b = b.block_size(sbs as u16);
+        }
         for f in &files {
             b = if f.enc && f.fix {
                 b.add_file_data_with_encryption(f.data.clone(), f.name, f.comp, true, 0)
@@ -128,12 +146,16 @@ fn main() {
         // tokens of what the source archive itself reads for every listed name
         let mut toks = Map::new();
         let mut enc: Vec<String> = vec![];
+        let mut srcbad: Vec<String> = vec![];
         for n in &listed {
             match sa.read_file(n) {
                 Ok(d) => {
                     toks.insert(n.clone(), json!(tok(&d)));
                 }
-                Err(e) => tool_error(&format!("case {case}: source does not read back {n}: {e:?} (C01 territory)")),
+                Err(_) => {
+                    toks.insert(n.clone(), json!("unreadable"));
+                    srcbad.push(n.clone());
+                }
             }
             if let Ok(Some(fi)) = sa.find_file(n) {
                 if fi.is_encrypted() {
@@ -141,14 +163,17 @@ fn main() {
                 }
             }
         }
+        // the source archive must hold what was given to the builder; if it does not, that is recorded (the trace
+        // spec rejects the case with reason `source-not-as-built`: the break is observable through the rebuild
+        // pipeline although it originates in the builder / codec, i.e. overlaps C01 / C03)
         for f in &files {
-            if toks.get(f.name).and_then(|t| t.as_str()) != Some(tok(&f.data).as_str()) {
-                tool_error(&format!("case {case}: source content of {} differs from what was added (C01 territory)", f.name));
+            if toks.get(f.name).and_then(|t| t.as_str()) != Some(tok(&f.data).as_str()) && !srcbad.iter().any(|x| x == f.name) {
+                srcbad.push(f.name.to_string());
             }
         }
         drop(sa);
         let sig: Vec<String> = listed.iter().filter(|n| n.as_str() == "(signature)" || n.as_str() == "(strong signature)").cloned().collect();
-        evs.push(json!({"ev":"Reset","case":case,"ver":gi(src,"ver"),"at":gb(src,"at"),"empty":gb(src,"empty"),"sigfile":with_sig,"hetbet":hetbet,
+        evs.push(json!({"ev":"Reset","case":case,"ver":gi(src,"ver"),"at":gb(src,"at"),"empty":gb(src,"empty"),"sigfile":with_sig,"sbs":sbs,"edge":edge,"srcbad":srcbad,"hetbet":hetbet,
             "listed":listed,"tok":Value::Object(toks),"enc":enc,"sig":sig}));
         // ---- rebuild
         let target = gi(o, "target");
